@@ -285,6 +285,15 @@ func (e *Exec) resync(get StoreGetter) {
 
 func (e *Exec) Run() {
 	defer e.Trace.Close()
+	if tz := e.S.Config.TZ; tz != "" {
+		// the host's time zone is a property of the machine a node runs on: nothing consensus-visible may depend on it
+		if loc, err := time.LoadLocation(tz); err == nil {
+			prev := time.Local
+			time.Local = loc
+			defer func() { time.Local = prev }()
+			e.Stats.Inc("fault.clock.local_time_zone")
+		}
+	}
 	runSkipUpgrades = nil
 	for _, h := range e.S.Config.SkipUpgradeHeights {
 		runSkipUpgrades = append(runSkipUpgrades, int(h))
